@@ -113,6 +113,8 @@ def judge_identity(oid, rule, got, want, kernel, norm=lambda p: p, text='', sphe
         return R.ob(oid, rule, R.PROVED, text or 'identity holds', kernel=kernel)
     env = P.find_witness('gt', ONE, [got - want], spheres=spheres) if P.transparent(got - want) else None
     if env is not None:
+        for a_ in P.lane_atoms([got, want]):
+            env.setdefault(a_, Fraction(1))          # lanes that cancel in the difference: any value
         return R.ob(oid, rule, R.REFUTED, '%s fails, e.g. at %s: got %s, expected %s' % (text or 'identity', P.show_env(env), P.eval_poly(got, env), P.eval_poly(want, env)), kernel=kernel)
     return R.ob(oid, rule, R.UNDECIDED, '%s: residual %s' % (text or 'identity', P.show_poly(d, limit=6)), kernel=kernel)
 
@@ -345,7 +347,7 @@ def sqrt_square(p, pc):
         if rc is None or any(m.count(x) % 2 for x in set(m)):
             continue
         root = Poly({tuple(sorted(x for x in set(m) for _ in range(m.count(x) // 2))): Fraction(1)})
-        p = p.subst(a, Poly.atom(('fabs', ('P', root))).scale(rc))
+        p = p.subst(a, (Poly.atom(('fabs', ('P', root))) if m else ONE).scale(rc))
     return p
 
 
@@ -464,6 +466,25 @@ def enumerate_rows(terms, limit=12, rels=('lt', 'gt')):
             return None
         atoms.append(need.key)
         infos[need.key] = need.info
+
+
+def deep(p, f, pc, depth=0):
+    """apply the polynomial rewriting f bottom-up: first inside the argument polynomials of every atom (inv / sqrt / fabs / fn:*), then to p"""
+    if depth > 8:
+        return f(p)
+    for a in sorted(p.atoms()):
+        k = P.atom_key(a)
+        if k[0] == 'in' or not any(isinstance(x, tuple) and len(x) == 2 and x[0] == 'P' for x in k[1:]):
+            continue
+        parts = tuple(('P', deep(x[1], f, pc, depth + 1)) if (isinstance(x, tuple) and len(x) == 2 and x[0] == 'P') else x for x in k[1:])
+        if parts == tuple(k[1:]):
+            continue
+        if k[0] == 'inv':
+            rep = pc.inv(parts[0][1])
+        else:
+            rep = Poly.atom((k[0],) + parts)
+        p = p.subst(a, rep)
+    return f(p)
 
 
 def quat_cast_cases(T, lay, cfg, qt, m3, kt, tg):
